@@ -56,6 +56,14 @@ func Aliases(root ssa.Value) []ssa.Value {
 	seen := map[ssa.Value]bool{root: true}
 	for i := 0; i < len(out); i++ {
 		v := out[i]
+		// go/ssa does not CSE loads: other loads of the same field of the same
+		// object are the same value provided the function never stores to that field
+		for _, o := range sameLocationLoads(v) {
+			if !seen[o] {
+				seen[o] = true
+				out = append(out, o)
+			}
+		}
 		// upward
 		switch x := v.(type) {
 		case *ssa.Convert:
@@ -388,4 +396,42 @@ func UpperBoundGuard(fn *ssa.Function, root ssa.Value, at *ssa.BasicBlock, isCon
 		return false
 	})
 	return AllPathsThroughEdges(fn, at, edges)
+}
+
+// sameLocationLoads: v is a load of &base.field; returns the other loads of
+// the same field of the same base value in the function, provided the
+// function contains no store to that field (of any object) and no call
+// between them is considered (fields of AST/spec inputs are not mutated by
+// callees in the analysed code; stated assumption of the rules using this).
+func sameLocationLoads(v ssa.Value) []ssa.Value {
+	ld, ok := v.(*ssa.UnOp)
+	if !ok || ld.Op != token.MUL {
+		return nil
+	}
+	fa, ok := ld.X.(*ssa.FieldAddr)
+	if !ok {
+		return nil
+	}
+	fld := FieldOf(fa)
+	fn := ld.Parent()
+	var out []ssa.Value
+	stored := false
+	Instrs(fn, func(in ssa.Instruction) {
+		switch x := in.(type) {
+		case *ssa.Store:
+			if fa2, ok := x.Addr.(*ssa.FieldAddr); ok && FieldOf(fa2) == fld {
+				stored = true
+			}
+		case *ssa.UnOp:
+			if x != ld && x.Op == token.MUL {
+				if fa2, ok := x.X.(*ssa.FieldAddr); ok && FieldOf(fa2) == fld && Unop(fa2.X) == Unop(fa.X) {
+					out = append(out, x)
+				}
+			}
+		}
+	})
+	if stored {
+		return nil
+	}
+	return out
 }
